@@ -156,7 +156,7 @@ const std::vector<Entry> &catalogue() {
 } // namespace
 
 void check_C14(Src &s, Ctx &ctx) {
-    SpecOpts so; so.min_outs = 0; so.max_outs = 2; so.cap = cfg().tier ? 300 : 120;
+    SpecOpts so; so.min_outs = 0; so.max_outs = 2; so.cap = cfg().tier ? 180 : 120;
     GridState st; st.cap = so.cap; st.ctx = &ctx;
     st.spec = decode_spec(s, so); st.vm.decode(s);
     bool empty_state = s.chance(1, 10);
